@@ -141,13 +141,15 @@ def pin_hash(relpath, fn, nth=1):
         raise LostAnchor("source file %s not found" % relpath)
     text = open(path, encoding="utf-8").read()
     masked = rustlex.mask(text)
-    hits = [m for m in re.finditer(r"\bfn\s+%s\b" % re.escape(fn), masked)]
+    hits = []
+    for m in re.finditer(r"\bfn\s+%s\b" % re.escape(fn), masked):
+        ob_, semi_ = masked.find("{", m.start()), masked.find(";", m.start())
+        if ob_ >= 0 and (semi_ < 0 or ob_ < semi_):   # definitions only: a trait's declaration has no body
+            hits.append(m)
     if len(hits) < nth:
-        raise LostAnchor("pinned fn %s (occurrence %d) not found in %s" % (fn, nth, relpath))
+        raise LostAnchor("pinned fn %s (definition %d) not found in %s" % (fn, nth, relpath))
     pos = hits[nth - 1].start()
     ob = masked.find("{", pos)
-    if ob < 0:
-        raise LostAnchor("pinned fn %s in %s has no body" % (fn, relpath))
     cb = rustlex.match_brace(masked, ob)
     # comments blanked (masked), but string literals kept: take code from `text` where masked is not blank,
     # except inside comments; simplest faithful choice: strip comments with the lexer's comment mask
